@@ -79,6 +79,10 @@ pub fn salt_bytes(label: &str) -> Option<Vec<u8>> {
         return None;
     }
     let n = salt_len(label);
+    // "s2" / "s3" are BINARY salts (not valid UTF-8; they differ only in such a byte): BEP44 salts are byte strings
+    if label == "s2" || label == "s3" {
+        return Some(vec![b's', if label == "s2" { 0xB2 } else { 0xB3 }]);
+    }
     let mut v = label.as_bytes().to_vec();
     while v.len() < n {
         v.push(b'_');
@@ -567,7 +571,7 @@ pub fn random_behaviour(id: u64, rng: &mut Rng, focus: &str, len: usize) -> Valu
     let mut token_steps: Vec<usize> = vec![];
     let froms = [("a", 1001u16), ("a", 1002), ("b", 1001), ("c", 1001)];
     let keys = ["k1", "k2"];
-    let salts = ["", "", "s1", "s2", "s64", "sbig"];
+    let salts = ["", "", "s1", "s2", "s3", "s64", "sbig"];
     let mvals = ["w1", "w2", "w3", "wmax", "wbig"];
     let ivals = ["v1", "v2", "vmax", "vbig"];
     let hashes = ["h1", "h2", "h3"];
@@ -595,7 +599,7 @@ pub fn random_behaviour(id: u64, rng: &mut Rng, focus: &str, len: usize) -> Valu
         } else if w < 40 {
             token_steps.push(i);
             let t = if rng.chance(1, 2) || mut_focus {
-                json!(["m", pick(rng, &keys), pick(rng, &salts[..4])])
+                json!(["m", pick(rng, &keys), pick(rng, &salts[..5])])
             } else {
                 json!(["i", pick(rng, &ivals[..3])])
             };
